@@ -319,6 +319,11 @@ class RowSym:
 
 
 class CellSeries:
+    """One cell of the written panel: a series of observation tokens whose own index is 0..m-1 and *has a name*
+    (any panel may carry named inner indexes; the name only shows when the writer asks for a header)."""
+
+    INDEX_NAME = tok("iname")
+
     def __init__(self, obs):
         self.obs = obs
 
@@ -331,9 +336,17 @@ class CellSeries:
 
     def m_method(self, interp, name, args, kwargs, node):
         if name == "to_string":
-            if args or kwargs.get("index", True) is not False or kwargs.get("header", False) is not False:
-                raise Undecided("Series.to_string without index=False, header=False")
-            return "\n".join(self.obs)
+            # pandas: one line per observation; index=True prefixes every line with its index label, header=True emits a
+            # first line holding the index name when the index is named (and index labels are printed or not)
+            if args or set(kwargs) - {"index", "header", "na_rep"}:
+                raise Undecided("Series.to_string with options other than index / header / na_rep")
+            index, header = kwargs.get("index", True), kwargs.get("header", False)
+            if not isinstance(index, bool) or not isinstance(header, bool):
+                raise Undecided("Series.to_string with non-boolean index / header")
+            lines = ["%d    %s" % (i, o) if index else o for i, o in enumerate(self.obs)]
+            if header:
+                lines.insert(0, self.INDEX_NAME)
+            return "\n".join(lines)
         return list(self.obs)
 
     def m_iter(self, interp):
